@@ -73,13 +73,16 @@ func (my *cacheImpl) Set(key any, value any, err error) {
 	var index, _ = cacheSharding.GetShardingIndex(key)
 	var futures = my.futures[index]
 
+	verifYield(VerifSiteBeforeLock)
 	futures.Lock()
+	verifYield(VerifSiteAfterLock)
 	{
 		var next = newFuture(nil) // 直接设值, 没有加载过程, 所以也不需要predecessor
 		next.setValue(value, err)
 		futures.d[key] = next
 	}
 	futures.Unlock()
+	verifYield(VerifSiteAfterUnlock)
 }
 
 func (my *cacheImpl) Get1(key any) any {
@@ -93,7 +96,9 @@ func (my *cacheImpl) Get2(key any) (any, error) {
 	var futures = my.futures[index]
 
 	// 以下代码需要考虑并发, 需要阻止重复加载
+	verifYield(VerifSiteBeforeLock)
 	futures.Lock()
+	verifYield(VerifSiteAfterLock)
 	var future = futures.d[key]
 	// status必须在持锁期间计算(与Load()一致): 否则在读map与计算status之间, 其它goroutine的Load()/Set()可能已经换掉了这个future,
 	// 导致明明有加载正在进行, 这里却因为拿着的旧future已经rotted而返回nil, nil
@@ -103,6 +108,7 @@ func (my *cacheImpl) Get2(key any) (any, error) {
 		target = my.fetchIfFutureStatusGood(future)
 	}
 	futures.Unlock()
+	verifYield(VerifSiteAfterUnlock)
 
 	//fmt.Printf("status=%v \n", status)
 	switch status {
@@ -130,7 +136,9 @@ func (my *cacheImpl) Load(key any, loader Loader) *Future {
 	var next *Future = nil
 
 	// 以下代码需要考虑并发, 需要阻止重复加载
+	verifYield(VerifSiteBeforeLock)
 	futures.Lock()
+	verifYield(VerifSiteAfterLock)
 	var lastFuture = futures.d[key]
 	var lastStatus = my.getFutureStatus(lastFuture)
 
@@ -151,9 +159,11 @@ func (my *cacheImpl) Load(key any, loader Loader) *Future {
 		goodTarget = my.fetchIfFutureStatusGood(lastFuture)
 	}
 	futures.Unlock()
+	verifYield(VerifSiteAfterUnlock)
 
 	// 必须在Unlock()之后发送: jobChan满的时候sendJob()会阻塞, 持锁阻塞会与removeRotted()形成死锁
 	if next != nil {
+		verifYield(VerifSiteSendJob)
 		my.sendJob(cacheJob{loader: loader, key: key, future: next})
 	}
 
@@ -233,7 +243,9 @@ func (my *cacheImpl) sendJob(job cacheJob) {
 
 func (my *cacheImpl) removeRotted() {
 	for _, futures := range my.futures {
+		verifYield(VerifSiteBeforeLock)
 		futures.Lock()
+		verifYield(VerifSiteAfterLock)
 		for key, future := range futures.d {
 			var status = my.getFutureStatus(future)
 			if status == kFutureRotted {
@@ -241,6 +253,7 @@ func (my *cacheImpl) removeRotted() {
 			}
 		}
 		futures.Unlock()
+		verifYield(VerifSiteAfterUnlock)
 	}
 }
 
@@ -254,6 +267,7 @@ func (my *cacheImpl) getFutureStatus(future *Future) int {
 		var past = time.Since(updateTime)
 
 		var expire = my.args.normalExpire
+		verifYield(VerifSiteReadErr)
 		if future.err != nil {
 			expire = my.args.errorExpire
 		}
